@@ -6,14 +6,14 @@ if sys.argv[1] == "--update":
     cur = None
     res = {}
     for l in open(sys.argv[2]):
-        m = re.match(r"MUTANT s-(C\d\d[a-z]) (C\d\d): (CAUGHT|missed) (\d+) signatures", l)
+        m = re.match(r"MUTANT s-(C\d\d[a-z]+) (C\d\d): (CAUGHT|missed) (\d+) signatures", l)
         if m:
             cur = (m.group(1), m.group(2))
             res.setdefault(m.group(1), []).append([m.group(2), m.group(3), int(m.group(4)), None])
             continue
         m = re.match(r"\s+(C\d\d\|\S.*?) x\d+\s*$", l)
         if m and cur:
-            sig = re.sub(r"/tmp/mutwork\d*/s-C\d\d[a-z]/", "", m.group(1))
+            sig = re.sub(r"/tmp/mutwork\d*/s-C\d\d[a-z]+/", "", m.group(1))
             res[cur[0]][-1][3] = sig
     for sid, rs in res.items():
         p = f"/verif/seeded/{sid}/meta.json"
@@ -31,5 +31,5 @@ for d in sorted(glob.glob("/verif/seeded/C*")):
         continue
     j = json.load(open(d + "/meta.json"))
     title = open(d + "/README.md").readline().strip().lstrip("# ").strip()
-    cb = re.sub(r"/tmp/mutwork\d*/s-C\d\d[a-z]/", "", j["caught_by"]).replace("|", "/")
+    cb = re.sub(r"/tmp/mutwork\d*/s-C\d\d[a-z]+/", "", j["caught_by"]).replace("|", "/")
     print(f"| {sid} | {title} | {cb} | {j.get('initially_missed_by') or '—'} |")
